@@ -354,6 +354,21 @@ def shrink(mod, pid, case, cls, known, budget_s=60.0):
         return case, 0
     # a candidate whose fault-free twin already shows the violation is a different (workload) problem,
     # unless the original case was like that too
+    own = getattr(mod, "shrink_candidates", None)
+    if own is not None:
+        # engines with their own case format (fs_sim, zmq_sim, ...): plain greedy one-edit shrinking; the
+        # module's candidates must themselves keep the case inside its validity contract
+        while improved and _perf() - t0 < budget_s:
+            improved = False
+            for cand in own(best):
+                if _perf() - t0 > budget_s:
+                    break
+                tried += 1
+                if _valid(mod, cand) and _same(mod, cand, cls, known, pid):
+                    best = cand
+                    improved = True
+                    break
+        return best, tried
     twin_bad = _same(mod, _twin(case), cls, known, pid)
     while improved and _perf() - t0 < budget_s:
         improved = False
